@@ -222,7 +222,7 @@ def run_one(site):
         if not killed:
             os.makedirs(os.path.join(OUT, "survivors"), exist_ok=True)
             d = subprocess.run(["diff", "-u", os.path.join(REPO, site["file"]), path], capture_output=True, text=True).stdout
-            d = d.replace(os.path.join(REPO, site["file"]), "a/" + site["file"]).replace(path, "b/" + site["file"])
+            d = d.replace(path, "b/" + site["file"]).replace(os.path.join(REPO, site["file"]), "a/" + site["file"])
             open(os.path.join(OUT, "survivors", site["id"] + ".patch"), "w").write(d)
         return res
     except Exception as e:
@@ -295,11 +295,55 @@ def cmd_report():
             print("  survived %s %s:%d %s %r -> %r ran %s" % (r["id"], r["file"], r["line"], r["kind"], r["old"][:50], r["new"][:50], r.get("rcs")))
 
 
+def recheck_one(r):
+    """run the covering checks that the first pass did not run (it stops at 4) against a survivor"""
+    patch = os.path.join(OUT, "survivors", r["id"] + ".patch")
+    tmp = tempfile.mkdtemp(prefix="mut.")
+    repo = os.path.join(tmp, "repo")
+    try:
+        shutil.copytree(REPO, repo, symlinks=True, ignore=shutil.ignore_patterns(".git"))
+        a = subprocess.run(["patch", "-p1", "-s", "-i", patch], cwd=repo, capture_output=True, text=True)
+        if a.returncode:
+            r["recheck"] = "patch failed"
+            return r
+        for pid in [c for c in r["checks"] if c not in r.get("rcs", {})]:
+            try:
+                p = subprocess.run([os.path.join(HERE, "check"), pid, "--tier", "quick"], cwd=HERE, capture_output=True, text=True,
+                                   env=dict(os.environ, VERIF_REPO=repo, VERIF_NO_EVIDENCE="1"), timeout=1500)
+                rc = p.returncode
+            except subprocess.TimeoutExpired:
+                rc = 124
+            r.setdefault("rcs", {})[pid] = rc
+            if rc in (1, 124):
+                r["status"] = "killed"
+                r["killed_by"] = [pid]
+                break
+        return r
+    finally:
+        shutil.rmtree(tmp, ignore_errors=True)
+
+
+def cmd_recheck(argv):
+    j = int(argv[argv.index("-j") + 1]) if "-j" in argv else 4
+    rp = os.path.join(OUT, "results.jsonl")
+    rs = [json.loads(l) for l in open(rp)]
+    todo = [r for r in rs if r["status"] == "survived" and any(c not in r.get("rcs", {}) for c in r["checks"])]
+    print(len(todo), "survivors with covering checks not yet run", flush=True)
+    with cf.ThreadPoolExecutor(j) as ex:
+        for r in ex.map(recheck_one, todo):
+            print("%-9s %s %s:%d %s" % (r["status"], r["id"], r["file"], r["line"], r.get("rcs")), flush=True)
+    with open(rp, "w") as f:
+        for r in rs:
+            f.write(json.dumps(r) + "\n")
+
+
 if __name__ == "__main__":
     cmd = sys.argv[1] if len(sys.argv) > 1 else "report"
     if cmd == "sites":
         cmd_sites()
     elif cmd == "run":
         cmd_run(sys.argv[2:])
+    elif cmd == "recheck":
+        cmd_recheck(sys.argv[2:])
     else:
         cmd_report()
